@@ -21,8 +21,9 @@ def register(reg):
     track_model.register(reg)
     n = "npts(track)"
     INRANGE = "(tini < REF[%s] and REF[%s] <= tfin)"
-    LERP = ("(T[%(r)s] - T[%(r)s - 1]) * interp_points[%(j)s].position.%(f)s == "
-            "(T[%(r)s] - REF[OK_[%(j)s]]) * %(F)s(track, %(r)s - 1) + (REF[OK_[%(j)s]] - T[%(r)s - 1]) * %(F)s(track, %(r)s)")
+    # linear interpolation with the two barycentric weights (t1 - t)/(t1 - t0) and (t - t0)/(t1 - t0), t0 < t <= t1 the bracket
+    LERP = ("interp_points[%(j)s].position.%(f)s == fdiv(T[%(r)s] - REF[OK_[%(j)s]], T[%(r)s] - T[%(r)s - 1]) * %(F)s(track, %(r)s - 1) + "
+            "fdiv(REF[OK_[%(j)s]] - T[%(r)s - 1], T[%(r)s] - T[%(r)s - 1]) * %(F)s(track, %(r)s)")
     lerp = lambda j, f, F: LERP % dict(j=j, r="RID_[%s]" % j, f=f, F=F)
     PRODUCED = [
         "len(OK_) == len(interp_points) and len(RID_) == len(interp_points)",
@@ -33,11 +34,13 @@ def register(reg):
         # bracketing fixes and interpolated position, for an ARBITRARY produced observation J0 (ghost input)
         "implies(0 <= J0 and J0 < len(OK_), 1 <= RID_[J0] and RID_[J0] < %s and T[RID_[J0] - 1] < REF[OK_[J0]] and REF[OK_[J0]] <= T[RID_[J0]])" % n,
         "all(isnew(interp_points[j]) and isnew(interp_points[j].position) and isnew(interp_points[j].timestamp) for j in range(0, len(OK_)))",
-        "implies(0 <= J0 and J0 < len(OK_), not isnan(interp_points[J0].position.E) and %s)" % lerp("J0", "E", "X"),
+        "implies(0 <= J0 and J0 < len(OK_), not isnan(interp_points[J0].position.E))",
+        "implies(0 <= J0 and J0 < len(OK_), %s)" % lerp("J0", "E", "X"),
         "implies(0 <= J0 and J0 < len(OK_), not isnan(interp_points[J0].position.N) and %s)" % lerp("J0", "N", "Y"),
         "implies(0 <= J0 and J0 < len(OK_), not isnan(interp_points[J0].position.U) and %s)" % lerp("J0", "U", "Z"),
         "implies(0 <= J0 and J0 < len(OK_), wf(interp_points[J0].timestamp) and abstime(interp_points[J0].timestamp) <= REF[OK_[J0]] and "
         "REF[OK_[J0]] < abstime(interp_points[J0].timestamp) + 0.001)"]
+    LERPS = [lerp("len(OK_) - 1", f, F) for f, F in (("E", "X"), ("N", "Y"), ("U", "Z"))]
     SORTED_T = "all(implies(a < b, T[a] < T[b]) for a in range(0, len(T)) for b in range(0, len(T)))"
     SORTED_REF = "all(implies(a <= b, REF[a] <= REF[b]) for a in range(0, len(REF)) for b in range(0, len(REF)))"
     reg.add(Spec(Q + "__resampleTemporal", dict(track="Track", T="list[real]", REF="list[real]"), "none", ghost=dict(J0="int"),
@@ -48,18 +51,11 @@ def register(reg):
                  fresh=["Obs", "ENUCoords", "ObsTime"],
                  locals=dict(interp_points="list[Obs]", OK_="list[int]", RID_="list[int]"),
                  at={"running_id = 0": ["ghost OK_ = []", "ghost RID_ = []"],
-                     "Z = wbwd * pt_bwd.position.getZ() + wfwd * pt_fwd.position.getZ()": [
-                         ("weights", "wbwd * (tfwd - tbwd) == tfwd - t and wfwd * (tfwd - tbwd) == t - tbwd"),
-                         "use mul_eq(wbwd * (tfwd - tbwd), tfwd - t, pt_bwd.position.E)",
-                         "use mul_eq(wfwd * (tfwd - tbwd), t - tbwd, pt_fwd.position.E)",
-                         ("lerp-x", "(tfwd - tbwd) * X == (tfwd - t) * pt_bwd.position.E + (t - tbwd) * pt_fwd.position.E"),
-                         "use mul_eq(wbwd * (tfwd - tbwd), tfwd - t, pt_bwd.position.N)",
-                         "use mul_eq(wfwd * (tfwd - tbwd), t - tbwd, pt_fwd.position.N)",
-                         ("lerp-y", "(tfwd - tbwd) * Y == (tfwd - t) * pt_bwd.position.N + (t - tbwd) * pt_fwd.position.N"),
-                         "use mul_eq(wbwd * (tfwd - tbwd), tfwd - t, pt_bwd.position.U)",
-                         "use mul_eq(wfwd * (tfwd - tbwd), t - tbwd, pt_fwd.position.U)",
-                         ("lerp-z", "(tfwd - tbwd) * Z == (tfwd - t) * pt_bwd.position.U + (t - tbwd) * pt_fwd.position.U")],
-                     "interp_points.append(pi)": ["ghost OK_ = OK_ + [k]", "ghost RID_ = RID_ + [running_id]"]},
+                     "interp_points.append(pi)": ["ghost OK_ = OK_ + [k]", "ghost RID_ = RID_ + [running_id]",
+                                                  ("appended-entry", "RID_[len(OK_) - 1] == running_id and OK_[len(OK_) - 1] == k and T[running_id] == tfwd and "
+                                                   "T[running_id - 1] == tbwd and REF[k] == t and interp_points[len(OK_) - 1].position.E == X and "
+                                                   "interp_points[len(OK_) - 1].position.N == Y and interp_points[len(OK_) - 1].position.U == Z"),
+                                                  ("appended-lerp-x", LERPS[0]), ("appended-lerp-y", LERPS[1]), ("appended-lerp-z", LERPS[2])]},
                  loops={"2": LoopSpec(inv=PRODUCED + [
                             "0 <= running_id and running_id < " + n,
                             "running_id == 0 or all(implies(REF[q] > tini, T[running_id - 1] < REF[q]) for q in range(k, len(REF)))",
@@ -70,8 +66,8 @@ def register(reg):
                           ("no-requested-instant-in-range-is-dropped",
                            "all(implies(%s, any(OK_[j] == q for j in range(0, len(OK_)))) for q in range(0, len(REF)))" % (INRANGE % ("q", "q"))),
                           ("bracketing-fixes", PRODUCED[4]),
-                          ("linear-interpolation-x", PRODUCED[6]), ("linear-interpolation-y", PRODUCED[7]), ("linear-interpolation-z", PRODUCED[8]),
-                          ("stamped-with-the-instant-to-the-millisecond", PRODUCED[9])]))
+                          ("linear-interpolation-x", PRODUCED[7]), ("linear-interpolation-y", PRODUCED[8]), ("linear-interpolation-z", PRODUCED[9]),
+                          ("stamped-with-the-instant-to-the-millisecond", PRODUCED[10])]))
 
 
 FUNCTIONS = [Q + "__resampleTemporal"]
